@@ -80,7 +80,7 @@ where
                 if !fragment.cleared {
                     txn.clear_state(syntax::ClearState::Pending);
                 }
-                add_charges(&mut txn, config, &entry.charges)?;
+                add_charges(&mut txn, config, &entry.charges, false)?;
                 res.push(txn);
             }
             for (idx, transaction) in entry.details.transactions.iter().enumerate() {
@@ -105,8 +105,11 @@ where
                 if !fragment.cleared {
                     txn.clear_state(syntax::ClearState::Pending);
                 }
+                // true if the statement tells the amount before charge deduction (TxAmt).
+                let mut net_amount_known = false;
                 if let Some(amount_details) = transaction.amount_details.as_ref() {
                     if transaction.amount != amount_details.transaction.amount {
+                        net_amount_known = true;
                         if let Some(exchange) =
                             amount_details.transaction.currency_exchange.as_ref()
                         {
@@ -128,9 +131,9 @@ where
                 }
                 // Entry level charges are recorded once, not once per batched transaction.
                 if idx == 0 {
-                    add_charges(&mut txn, config, &entry.charges)?;
+                    add_charges(&mut txn, config, &entry.charges, net_amount_known)?;
                 }
-                add_charges(&mut txn, config, &transaction.charges)?;
+                add_charges(&mut txn, config, &transaction.charges, net_amount_known)?;
                 res.push(txn);
             }
         }
@@ -155,6 +158,7 @@ fn add_charges(
     txn: &mut single_entry::Txn,
     config: &config::ConfigEntry,
     charges: &Option<xmlnode::Charges>,
+    net_amount_known: bool,
 ) -> Result<(), ImportError> {
     let charges = match charges {
         Some(charges) => charges,
@@ -170,7 +174,9 @@ fn add_charges(
         log::info!("ADDED cr: {:?}", cr);
         // charge_amount must be negated, as charge is by default debit.
         let charge_amount = -cr.amount.to_data(cr.credit_or_debit.value);
-        if !cr.is_charge_included {
+        // Without TxAmt the amount before the charge must be computed,
+        // otherwise the transaction won't balance.
+        if !cr.is_charge_included || !net_amount_known {
             txn.try_add_charge_not_included(payee, charge_amount)?;
         } else {
             txn.add_charge(payee, charge_amount);
